@@ -12,7 +12,7 @@ func init() {
 		Decides: "(R22.1) OperationHashes returns ops[:collected]; an entry is collected only for a record that decoded and passed the filter, as (operation hash, fact hash) of that record, and the iteration continues after collecting only while collected != limit; " +
 			"(R22.2) success is reported only after the broken ordered keys and the filtered-out / superseded operations were handed to the removal routines; " +
 			"(R22.3) the removal buffers grow by append (no indexed store beyond a fixed length); " +
-			"(R22.4) SetOperation writes only when the operation key does not exist yet (idempotence; atomic with the test, see C24); " +
+			"(R22.4) SetOperation writes only when the operation key does not exist yet (idempotence), test and write in one exclusive section of the pool's set lock; " +
 			"(R22.5) for a fact found again the superseded entry's operation (not the newly selected one) is queued for removal, the entry is cut out of the collected list and every remembered position above it is shifted down.",
 		NotDecided: "that the leveldb iteration order is insertion order ('most recently added'); the removal routines' own batching; cache coherence of the operation cache.",
 		Run:        runC22,
@@ -115,6 +115,12 @@ func runC22(c *Ctx) {
 	c.MP(cb, "the record's own operation queued only when the filter rejected it", filtered, 1, GFalse("call(var:nfilter)("+meta+")#0"))
 	cut := c.StoresD(cb, "&var:ops")
 	c.MP(cb, "collected list cut only when the fact was found again", cut, 1, GTrue(dup+"#1"))
+	for _, cs := range cut {
+		res := reach(cb, cs, nil)
+		for _, sp := range supersede {
+			c.Report(cb, "superseded operation is read before its entry is cut out of the list", c.InstrPos(sp), !res.reached[sp], "the position refers to the list before the cut")
+		}
+	}
 	dec := 0
 	for _, in := range c.StoresD(cb, "&var:opsindex") {
 		if c.D(in.(*ssa.Store).Val) == "(var:opsindex - 1)" {
@@ -144,6 +150,8 @@ func runC22(c *Ctx) {
 					wr = append(wr, in)
 				}
 			}
+			c.Held(fn, nil, "existence test and write are one critical section: test under the set lock", ex, 1, "&db.setlock", LW)
+			c.Held(fn, nil, "existence test and write are one critical section: write under the set lock", wr, 1, "&db.setlock", LW)
 			c.MP(fn, "operation written only if its key does not exist yet", wr, 1, GFalse(exD+"#0"))
 			c.MP(fn, "cache updated only after the write succeeded", c.CallsD(fn, "db.setOpCache(op)"), 1, GOk("*.Batch(*)"))
 			c.ArgIs(fn, "existence tested under the operation's own key", ex, 1, 0, "isaacdatabase.newNewOperationLeveldbKeys(op.Hash())#0")
